@@ -66,7 +66,7 @@ def all_requests(M):
     return [(fs, ts, d) for fs in range(1, 2**M) for ts in range(1, 2**M) for d in (False, True)]
 
 
-def history_ob(M, prefix, oid, timeout=300):
+def history_ob(M, prefix, oid, timeout=300, form=None, disc=None):
     n = 2**M - 1
     pre_code = "\n".join(f"    request(p, mods, E, {fs}, {ts}, {d}, {form})\n    if not good(p, E):\n        return False" for fs, ts, d, form in prefix)
     body = f"""
@@ -77,7 +77,14 @@ def history_ob(M, prefix, oid, timeout=300):
     request(p, mods, E, fs, ts, disc, form)
     return good(p, E)
 """
-    return Ob(oid, build([R("fs", 1, n), R("ts", 1, n), B("disc"), R("form", 0, 2)], body, setup=SETUP),
+    params = [R("fs", 1, n), R("ts", 1, n), B("disc"), R("form", 0, 2)]
+    if form is not None:
+        body = body.replace("request(p, mods, E, fs, ts, disc, form)", f"request(p, mods, E, fs, ts, disc, {form})")
+        params = params[:3]
+    if disc is not None:
+        body = body.replace("request(p, mods, E, fs, ts, disc, ", f"request(p, mods, E, fs, ts, {disc}, ")
+        params = [x for x in params if x[0] != "disc"]
+    return Ob(oid, build(params, body, setup=SETUP),
               "after every request of the history the link tables agree entry by entry on both ends and the set of connections equals what the requests ask for",
               group="history", shape=f"M={M} modules; concrete prefix {prefix} (source mask, target mask, disconnect, form); last request symbolic",
               symbolic=f"source subset 1..{n}, target subset 1..{n}, connect/disconnect, call form (method, >>, <<)", timeout=timeout)
@@ -101,15 +108,20 @@ def obligations(tier, seed):
         a = rnd.choice(must)
         a = (a[0], a[1], False)
         b_ = rnd.choice(reqs)
-        obs.append(history_ob(M, [(a[0], a[1], False, rnd.randrange(3)), (b_[0], b_[1], b_[2], rnd.randrange(3))], f"k3.M3.{i}"))
+        obs.append(history_ob(M, [(a[0], a[1], False, rnd.randrange(3)), (b_[0], b_[1], b_[2], rnd.randrange(3))], f"k3.M3.{i}", timeout=300 if tier == "quick" else 600))
     # reconnect after disconnect: a link is made and freed (on either end), then any request follows
     for j, pre in enumerate([[(2, 4, False, 0), (2, 4, True, 0)], [(2, 1, False, 1), (4, 1, False, 0), (2, 1, True, 2)], [(6, 1, False, 0), (2, 1, True, 0)]]):
         obs.append(history_ob(M, pre, f"reconnect.M3.{j}"))
     if tier == "thorough":
         reqs4 = all_requests(4)
-        for i in range(24):
+        # (15 x 15 x 2 x 3 last requests do not finish in one run -- measured: 17 of 24 inconclusive at 600 s -- so the call form
+        # and connect/disconnect are fixed per obligation; the six together cover all last requests after that prefix)
+        for i in range(6):
             a = rnd.choice(reqs4)
-            obs.append(history_ob(4, [(a[0], a[1], False, rnd.randrange(3))], f"k2.M4.{i}", timeout=600))
+            pf = rnd.randrange(3)
+            for form in range(3):
+                for d in (False, True):
+                    obs.append(history_ob(4, [(a[0], a[1], False, pf)], f"k2.M4.{i}.form{form}.{'dis' if d else 'con'}", timeout=600, form=form, disc=d))
     # list operands in which a module may appear more than once and `~` marks individual entries:
     # pairs are processed in order (a later plain entry re-connects what an earlier ~entry disconnected)
     body = """
@@ -146,7 +158,7 @@ def obligations(tier, seed):
                                                      setup=SETUP + f"PF, PT = {pf_}, {pt_}\n"),
                           "a list operand with repeated modules and individually ~-marked entries is processed pair by pair in order; tables stay consistent and the edge set is what the sequence asks for",
                           group="mixed", shape=f"M=3; seeded prefix request (source mask {pf_}, target mask {pt_}); list of {n_} entries; form {['connect(src, list)', 'src >> list', 'connect(list, src)'][form_]}",
-                          symbolic="source module, each list entry (module, ~ or not)", timeout=400))
+                          symbolic="source module, each list entry (module, ~ or not)", timeout=400 if tier == "quick" else 800))
     # cross-project operands are refused and change nothing
     body = """
     p = Project()
